@@ -70,16 +70,12 @@ def check(run, project):
         pe = r.data["kwargs"].get("parameter_encryption")
         want1 = ("ornone", ("penc", (("for_response", ("const", True)),), (cmd_obj,)))
         want2 = ("ornone", ("penc", (("command", cmd_obj), ("for_response", ("const", True))), ()))
-        ok_pe = pe in (want1, want2)
-        if not ok_pe:
-            # the same value spelled as a branch: `flag = None; if is_parameter_encryption(cmd, for_response=True): flag = True`
-            for key, val in tr.decisions.items():
-                try:
-                    v = sp.ev(ast.parse(key, mode="eval").body, tr)
-                except Exception:
-                    continue
-                if v in (want1[1], want2[1]):
-                    ok_pe = (pe == ("const", True)) if val else (pe in (("const", None), None))
+        # (a predicate that takes the session area itself is handed the command's area)
+        area = ("attr", cmd_obj, "authorizationArea")
+        want3 = ("ornone", ("penc", (("for_response", ("const", True)),), (area,)))
+        wants = [want1, want2, want3]
+        from .c01 import penc_flag_ok
+        ok_pe = penc_flag_ok(sp, tr, pe, wants, area_kw=area)
         run.ob("S2", ok_pe, "response expects an encrypted first parameter iff that command's sessions request it",
                f"parameter_encryption is `{render(pe)}`", module=mod, node=r.node, func=fn.name, construct="stream parameter_encryption")
         run.ob("S1", c.data["kwargs"].get("command_code") in (None, ("const", None)), "the command decode gets no command code",
@@ -117,9 +113,20 @@ def s3(run, roles, L):
     if fn is None:
         raise AnalysisError("C09: is_parameter_encryption not found")
     params = [a.arg for a in fn.args.args]
-    if len(params) < 3:
-        raise AnalysisError("C09: is_parameter_encryption(command, authorizationArea, for_response) signature changed")
-    p_cmd, p_area, p_resp = params[:3]
+    dflt = dict(zip(params[len(params) - len(fn.args.defaults):], fn.args.defaults))
+    # parameters by role: the direction flag (default False), optionally a command whose session area is read, the session area
+    resp = [p_ for p_ in params if p_ == "for_response"] or \
+        [p_ for p_ in params if isinstance(dflt.get(p_), ast.Constant) and dflt[p_].value is False]
+    cmds = [p_ for p_ in params if any(isinstance(n, ast.Attribute) and n.attr == "authorizationArea" and isinstance(n.value, ast.Name)
+                                       and n.value.id == p_ for n in ast.walk(fn))]
+    if len(resp) != 1 or len(cmds) > 1:
+        raise AnalysisError("C09: the direction / command parameters of is_parameter_encryption are not recognisable")
+    p_resp = resp[0]
+    p_cmd = cmds[0] if cmds else None
+    areas = [p_ for p_ in params if p_ not in (p_resp, p_cmd)]
+    if len(areas) != 1:
+        raise AnalysisError("C09: the session-area parameter of is_parameter_encryption is not recognisable")
+    p_area = areas[0]
     sess = L.struct_types.get("TPMA_SESSION")
     masks = next((b.masks for b in sess.mro() if b.masks is not None), {}) if sess is not None else {}
     run.ob("S3", "encrypt" in masks and "decrypt" in masks and masks.get("encrypt") != masks.get("decrypt"),
@@ -128,13 +135,13 @@ def s3(run, roles, L):
     # decided on the path summaries: what is returned as a function of (command given?, area absent?, direction)
     S = paths.Summariser(mod, fn)
     ps = [p for p in S.paths() if not (p.end == "raise" and p.value is not None and norm(p.value) == "AssertionError")]
-    run.require(len(ps) >= 4, "C09: paths of is_parameter_encryption not found")
+    run.require(len(ps) >= (4 if p_cmd is not None else 3), "C09: paths of is_parameter_encryption not found")
     RESP = f"truthy {p_resp}"
     n_any = {"encrypt": 0, "decrypt": 0}
     for p in ps:
         lab = " & ".join(("" if v else "not ") + a for a, v, _ in p.cond) or "always"
         # which session area this path looks at
-        cmd_none = p.truth(f"{p_cmd} is None")
+        cmd_none = p.truth(f"{p_cmd} is None") if p_cmd is not None else True
         area = p_area if cmd_none is True else f"{p_cmd}.authorizationArea" if cmd_none is False else None
         v = p.value
         if p.end != "return" or v is None:
